@@ -1,4 +1,9 @@
-"""C01 — run() computes exactly the least model (relations, no negation / aggregation / lattices)."""
+"""C01 — run() computes exactly the least model (relations, no negation / aggregation / lattices).
+
+Three ties: (1) single runs from a fresh program value vs Engine/Eval.v and the naive_fix oracle (gen/engine_tie.py), (2) the planner
+model vs the dumped plan (gen/plan_model.py), (3) HISTORIES of one program value - push, overwrite relations with other rows,
+interrupted run_timeout, resume - with every index field observed around every call, vs Engine/IndexedHistory.v and vs the least model of
+the rows the real program value held when the call started (gen/indexed_tie.py): "every run() on ANY program value"."""
 import json
 import os
 
@@ -63,6 +68,11 @@ def tuple_item(it):
 def tie(tier, seed, replay):
     if replay:
         rp = json.load(open(replay))
+        if "history" in rp["case"] and "prog_ast" in rp["case"]:
+            # a history of one program value (gen/indexed_tie.py): re-run exactly that history
+            mism, st = indexed_tie.replay_case(rp["case"])
+            return dict(evaluations=st["histories"], distinct_nontrivial=st["histories"], rule="replay of one stored history (gen/indexed_tie.py)", samples=[], distribution={},
+                        mismatches=mism, trusted_base=[], assumptions=[], extra={})
         cases = [c for c in load_corpus_from([rp["case"]])]
     else:
         cases = load_corpus() + gen_cases(tier, seed)
@@ -128,13 +138,14 @@ def tie(tier, seed, replay):
     sample = [dict(program=r["text"], summary=r["summary"], input=r["case"]["inputs"][0],
                    impl={k: v[1][:6] for k, v in __import__("gen.prog", fromlist=["x"]).canon_snap(r["impl"][0]["snaps"][-1]).items()} if r["impl"] and "snaps" in r["impl"][0] else r["impl"])
               for r in results[:3]]
-    return dict(evaluations=sum(len(r["case"]["inputs"]) for r in results), distinct_nontrivial=len(distinct),
-                rule="random core programs (1-6 rules, 1-4 body items, relations of arity 1-3; shapes free/linear/non-linear/mutual/chain) x 3-4 input databases (empty, singleton, unequal, dense, chains), then a second phase of nearly saturated inputs (the least model of a first-phase input with one head relation reset to its original rows); non-trivial = the plan has a looping SCC and the run derives at least one new fact; distinct = distinct (plan summary, input)",
+    return dict(evaluations=sum(len(r["case"]["inputs"]) for r in results) + (idx["evaluations"] if idx else 0), distinct_nontrivial=len(distinct) + (idx["coverage"]["least_model_checks_where_the_call_had_to_derive"] if idx else 0),
+                rule="random core programs (1-6 rules, 1-4 body items, relations of arity 1-3; shapes free/linear/non-linear/mutual/chain) x 3-4 input databases (empty, singleton, unequal, dense, chains), then a second phase of nearly saturated inputs (the least model of a first-phase input with one head relation reset to its original rows); non-trivial = the plan has a looping SCC and the run derives at least one new fact; distinct = distinct (plan summary, input).  PLUS histories of one program value (any rows, any index fields): " + (idx["rule"] if idx else "-") + "; counted as non-trivial there: calls of run() / run_timeout() == true that had to derive at least one tuple and were compared with the least model of the rows present",
                 samples=sample, distribution=dict(programs=len(results), shapes=shapes, features=feats, recursive_deriving_runs=nrec),
                 mismatches=mism,
                 trusted_base=["FRONT hook (ascent_macro/src/verif_hook.rs, feature verif_hooks) printing the MIR plan; gen/dl.py translating the dump into the Coq plan term; gen/prog.py generated crates + canonicaliser",
                               "code generation from MIR to Rust (ascent_codegen.rs) is modelled by hand in Engine/Eval.v (abstract indices) and Engine/IndexedEval.v (one physical index per column set; proved to refine Eval.v) and tied by these runs, not verified",
                               "the planner (ascent_hir.rs / ascent_mir.rs) is mirrored by hand in Plan/PlanModel.v (proved: every plan it computes is accepted by the validator) and compared structurally with the dumped plan of every generated program; petgraph's condensation is an input of the model, checked per program by the decidable sccs_ok",
+                              "virtual clock hook (ascent/src/verif_hooks.rs, feature verif_hooks) standing in for web_time::Instant: decides which deadline check of run_timeout fires",
                               "rustc, hashbrown / std collections meet their documented semantics"],
                 assumptions=["column values are small i32 (no overflow in the vocabulary functions)", "hash-map iteration order is not modelled: relation contents are compared as sets plus row counts"],
                 extra=dict(cases_skipped_model_too_slow=nskipped, programs=len(results), plans_validated=sum(1 for r in results if r["valid"] is True),
